@@ -394,7 +394,7 @@ package kcache
 @*/
 
 /*@ func (*kcache.filterSubscription).run
-  props C08 C06 C07 C11 C12 C02 C05 C10
+  props C08 C06 C07 C11 C12 C02 C05 C10 C09
   theory actors filters
   requires [valid-s] (and (not (= {s} vnil)) (not (= {s.parent} vnil)) (not (= {s.cache} vnil)) (not (= {s.lc} vnil))
                         (not (= {s.log} vnil)) (not (= {s.readych} vnil)) (not (= {s.refilterch} vnil)) (not (= {s.outch} vnil))
@@ -558,7 +558,7 @@ package kcache
 @*/
 
 /*@ func (*kcache.controller).run
-  props C03 C08 C14 C02 C05 C12
+  props C03 C08 C14 C02 C05 C12 C04
   theory lists
   requires [valid-c] (and (not (= {c} vnil)) (not (= {c.readych} vnil)) (not (= {c.watcher} vnil)) (not (= {c.lister} vnil))
         (not (= {c.cache} vnil)) (not (= {c.subscription} vnil)) (not (= {c.log} vnil)) (not (= {c.lc} vnil)))
@@ -1168,6 +1168,7 @@ package kcache
   at recv(resetch) set needRetrych := true
   at store(retrych) set needRetrych := false
   at call(stop) set liveSession := false
+  at call(newWatchSession) assert [sessions-run-under-the-watchers-cancellable-context-so-that-shutdown-ends-them] (= $0 {ctx})
   at call(newWatchSession) assert [the-previous-session-was-stopped-or-had-finished] (not liveSession)
   at call(newWatchSession) set needSession := false
   at call(newWatchSession).after set liveSession := true
@@ -1596,13 +1597,14 @@ package kcache
   ensures (not (= result vnil))
 @*/
 /*@ func kcache.newLister
-  props C11 C13
+  props C11 C13 C03
   fresh result
   requires (and (not (= {log} vnil)) (not (= {ctx} vnil)))
   at go(WatchChannel) assert [stops-when-its-creator-shuts-down] (= $0 {stopch})
   at go(WatchContext) assert [stops-with-its-context] (= $0 {ctx})
   at go(run) assert [run-starts-with-valid-state] (and (not (= {l.resultch} vnil)) (not (= {l.lc} vnil)) (not (= {l.log} vnil)) (not (= {l.ctx} vnil))
         (= {l.client} {client}) (= {l.period} {period}))
+  at go(run) assert [results-are-handed-over-synchronously-so-the-refresh-period-starts-when-the-controller-took-the-result] (= (chancap {l.resultch}) 0)
   ensures (not (= result vnil))
 @*/
 
